@@ -130,7 +130,7 @@ def extract(repo=REPO, target_dir=None, quiet=True):
         shutil.rmtree(out, ignore_errors=True)
         os.rename(tmp, out)
         write_manifests(repo, out)
-        # keep the cache small: drop all but the 320 newest fact dirs (one per seeded change, ~19 MB each)
+        # keep the cache small: drop all but the 700 newest fact dirs (one per seeded change, ~19 MB each)
         # (another extraction, under another target dir's lock, may rename its temporary directory meanwhile)
         def _mtime(d):
             try:
@@ -138,7 +138,7 @@ def extract(repo=REPO, target_dir=None, quiet=True):
             except OSError:
                 return None
         dirs = [(m, d) for m, d in ((_mtime(d), d) for d in glob.glob(os.path.join(BUILD, "facts", "*"))) if m is not None and ".tmp" not in os.path.basename(d)]
-        for _m, d in sorted(dirs)[:-320]:
+        for _m, d in sorted(dirs)[:-700]:
             shutil.rmtree(d, ignore_errors=True)
         return out, {"cached": False, "hash": h, "wall_s": round(time.time() - t0, 2)}
     finally:
